@@ -9,6 +9,33 @@ TRUST = ("Trusted base: CPython, Hypothesis, the reference models under lsfverif
          "'held' means held on the cases counted in the evidence file.")
 
 CHECKS = {
+    "C02": dict(
+        category="exploration",
+        technique="property-based testing over generated machines x generated schedules with a lifecycle monitor evaluated after every scheduler step (notification sequence, record immutability and well-formedness, termination at quiescence)",
+        text=("The real engine stack runs 1-3 concurrent executions (API starts and raw start events with/without message ids) of generated machines on the simulated broker; Hypothesis chooses, step by step, "
+              "which enabled delivery / timer expiry / clock advance happens next. After every step the monitor checks RUNNING -> exactly one terminal notification per execution, that a terminal record never "
+              "changes and is well-formed, and at quiescence that every started execution is terminal."),
+        design_ref="DESIGN.md section 5 C02",
+        note="Schedules are sequences of atomic handler invocations (the engine is single-threaded on its event loop); thread races of the blocking deployment are out of reach. " + TRUST,
+    ),
+    "C03": dict(
+        category="exploration",
+        technique="property-based testing over generated machines x generated schedules with a monitor on the simulated broker's operation log (exactly-once acks, ack-after-publish ordering per handler context, carrier invariant between handlers, drain at quiescence)",
+        text=("Every broker operation (publish, deliver, ack, timer set/fire/cancel) is logged with the handler context it happened in. The monitor checks that each delivery to the engine is acknowledged exactly "
+              "once, that no event/notification publish attributable to a message happens after that message's ack, that a RUNNING execution always has a carrier between handler invocations, and that at "
+              "quiescence the broker and the engine's dictionaries (unacknowledged_messages, branch_metadata, pending_requests, cancellers, orphaned_responses, timers) are empty."),
+        design_ref="DESIGN.md section 5 C03",
+        note="Carrier invariant evaluated between handler invocations (not after each individual operation); orphan retention shortened to 3 s; one listed finding (branch_metadata retained after a failed fan-out). " + TRUST,
+    ),
+    "C17": dict(
+        category="exploration",
+        technique="exhaustive enumeration of short names over the ARN-significant alphabet plus Hypothesis long names; round-trip / derivation laws on arn.py and the validators; engine-level identifier agreement across derivation sites",
+        text=("All names up to length 3 (quick) / 4 (thorough) over letters, digits, '.', '-', '_', space and every rejected punctuation character are enumerated: accepted names must mint state machine and "
+              "execution ARNs that parse back to their parts, rebuild to the same string and survive the split-at-last-colon derivation; both front ends must agree on acceptance and on the 80/81 boundary. "
+              "For accepted names the engine is run (STANDARD, EXPRESS, crash+restart, expiry back stop) and every place that reports identifiers must agree."),
+        design_ref="DESIGN.md section 5 C17",
+        note="Control characters are outside the stated alphabet. " + TRUST,
+    ),
     "C08": dict(
         category="exploration",
         technique="exhaustive RFC 3339 offset/fraction sweep against an integer-arithmetic reference, plus Hypothesis-generated deadline-race scenarios on a virtual clock (delivery delays, reply delays around deadlines, crash+redelivery, engine time zone)",
